@@ -177,6 +177,8 @@ func partsClass(want, got []string) string {
 
 // iterPath runs all iterator checks on one absolute path.
 func (w *worker) iterPath(o *osCtx, path string, repl []string) {
+	w.begin(o, "iter", path, "", "")
+
 	ref := &o.ref
 	volLen := len(ref.volumeName(path))
 	clean := ref.clean(path) == path
